@@ -153,7 +153,9 @@ SORT_SPELLING = [("http://a.com/?%7A=1&a=2", "http://a.com/?z=1&a=2"), ("http://
                  ("http://a.com/p?é=1&%C3%A9=0&z", "http://a.com/p?%c3%a9=1&é=0&z"), ("http://a.com/?a=1&a&a=", "http://a.com/?a&a=&a=1")]
 ESC_UPPER = [("http://a.com/?%42=1&a=2", "http://a.com/?B=1&a=2"), ("http://a.com/?ref=%46B&x=1", "http://a.com/?ref=FB&x=1"), ("http://a.com/%41bc?Z=%5A", "http://a.com/Abc?Z=Z"),
              ("http://a.fr/x/%69ndex.html", "http://a.fr/x/index.html"), ("http://a.fr/x/%49ndex.html", "http://a.fr/x/Index.html"), ("http://a.fr/x/b.%61mp", "http://a.fr/x/b.amp"),
-             ("http://a.fr/x/b.%41MP.html?%55TM_source=1", "http://a.fr/x/b.AMP.html?UTM_source=1"), ("a.fr?u=/p", "https://a.fr/?u=/p"), ("a.fr/login?next=/home&x=1", "https://a.fr/login?next=/home&x=1")]
+             ("http://a.fr/x/b.%41MP.html?%55TM_source=1", "http://a.fr/x/b.AMP.html?UTM_source=1"), ("a.fr?u=/p", "https://a.fr/?u=/p"), ("a.fr/login?next=/home&x=1", "https://a.fr/login?next=/home&x=1"),
+             ("cdn.ampproject.org:443/c/s/y.com/a", "https://cdn.ampproject.org/c/s/y.com/a"), ("x.com/?a=1&%61mp;x=1", "x.com/?a=1&amp;x=1"), ("x.com/?Q=http://y.com/a", "x.com/?q=http://y.com/a"),
+             ("x.com/?Q=http://y.com/a", "y.com/a"), ("http://www.google.com/URL?Q=http%3A%2F%2Fy.com%2Fa", "http://www.google.com/url?q=http%3A%2F%2Fy.com%2Fa")]
 ESC_TRACKING = [("http://a.com/x?%75tm_source=1&id=2", "http://a.com/x?id=2"), ("http://a.com/x?utm%5Fsource=1", "http://a.com/x"), ("http://a.com/x?%66bclid=abc&a=1", "http://a.com/x?a=1"),
                 ("http://a.com/x?re%66=twitter", "http://a.com/x?ref=%74witter")]
 
